@@ -1,4 +1,5 @@
 import Ruint.Lemmas.ModularInv
+import Ruint.Lemmas.GenValue
 import Ruint.Lemmas.ModularLimbs
 
 /-!
@@ -129,5 +130,24 @@ example : ModularL.mulMod 65 [0xffffffffffffffff, 1] [0xfffffffffffffffe, 1] [0x
   decide +kernel
 example : ModularL.mulMod 65 [0xffffffffffffffff, 1] [0xfffffffffffffffe, 1] [7, 0] = some [6, 0] := by
   decide +kernel
+
+/-! ## Tie of the value-level wrappers to the source (G, value mode)
+
+`Ruint.Gen.val_reduce_mod`, `val_add_mod`, `val_pow_mod` are regenerated from `src/modular.rs` on every run in the
+translator's *value mode* (a `Uint` is its numeric value; `overflowing_add`, comparisons, `-=`, `>>=`, `limbs[0] & 1` are
+their value-level meanings; `mul_mod` is the model's `mulMod`): the zero-modulus guards, the single conditional
+subtraction of `add_mod`, the `modulus <= 1` early return, the loop condition `exp > 0` and the parity test of `pow_mod`
+are the source's. They are equal to the L2 models the theorems above are about (`pow_mod` with the model's own fuel). -/
+
+theorem gen_reduce_mod_eq (bits L a m : ℕ) : Ruint.Gen.val_reduce_mod bits L a m = reduceMod a m :=
+  Ruint.GenValue.reduce_mod_eq bits L a m
+
+theorem gen_add_mod_eq (bits L a b m : ℕ) (hm : m < 2 ^ bits) :
+    Ruint.Gen.val_add_mod bits L a b m = addMod bits a b m :=
+  Ruint.GenValue.add_mod_eq bits L a b m hm
+
+theorem gen_pow_mod_eq (bits L a e m : ℕ) :
+    Ruint.Gen.val_pow_mod bits bits L a e m = powMod bits a e m :=
+  Ruint.GenValue.pow_mod_eq bits L a e m
 
 end Ruint.C10
